@@ -262,6 +262,34 @@ def validate_trace(trace_module, cfg, trace_path, cwd=None, env=None, timeout=11
     raise Broken("trace validation tool failure (%s) rc=%s\n%s" % (trace_module, r.rc, r.out[-3000:]))
 
 
+def validate_parallel(trace_module, cfg, records, cwd, tag, chunks=None, timeout=1100, xmx="3g"):
+    """For trace specs whose records are independent (one observation per line):
+    split the records over several TLC processes.  Returns (list of TLCResult)."""
+    chunks = chunks or NPROC
+    n = len(records)
+    if n == 0:
+        return []
+    chunks = max(1, min(chunks, n))
+    d = os.path.join(BUILD, "traces")
+    os.makedirs(d, exist_ok=True)
+    paths = []
+    for k in range(chunks):
+        p = os.path.join(d, "%s-%d-%d.ndjson" % (tag, os.getpid(), k))
+        with open(p, "w") as f:
+            for r in records[k::chunks]:
+                f.write(json.dumps(r) + "\n")
+        paths.append(p)
+    def one(p):
+        return tlc(trace_module, cfg=cfg, cwd=cwd, env={"TRACE": p}, workers=1, timeout=timeout, xmx=xmx, deadlock=False)
+    with cf.ThreadPoolExecutor(max_workers=chunks) as ex:
+        res = list(ex.map(one, paths))
+    for p, r in zip(paths, res):
+        if r.rc != 0 or len(printed_json(r, "DONE")) != 1:
+            raise Broken("trace validation failed (%s, %s) rc=%s\n%s" % (trace_module, p, r.rc, r.out[-3000:]))
+        os.remove(p)
+    return res
+
+
 # --------------------------------------------------------------------------
 # evidence / findings / verdicts
 # --------------------------------------------------------------------------
